@@ -239,6 +239,10 @@ func c05(r *hx.Run) {
 			enc = orig
 			c.Encoding = ""
 		}
+		if len(orig) == 0 && (c.Encoding == "gzip" || c.Encoding == "br") && c.Status%2 == 0 {
+			// an upstream that labels an empty body with the coding it would have used (nothing on the wire)
+			enc = orig
+		}
 		h := [][2]string{{"Content-Type", c.Type}}
 		if c.Cacheable {
 			h = append(h, [2]string{"Cache-Control", "max-age=600"})
@@ -333,9 +337,13 @@ func c05(r *hx.Run) {
 		}
 		if c.Method == "GET" && i%6 == 5 {
 			// a HEAD for the same URL first (its own key): the GET must still get the whole body
-			hres := w.Cl.Do(hx.Req{Method: "HEAD", Addr: s.addr, Host: "c05.example", URI: c.URI})
-			if hres.Err != nil || len(hres.Raw) != 0 {
-				r.Violate("head_answer_wrong", nil, fmt.Sprintf("HEAD: err %v, %d body bytes", hres.Err, len(hres.Raw)), hres.Brief(), c)
+			hrq := hx.Req{Method: "HEAD", Addr: s.addr, Host: "c05.example", URI: c.URI}
+			if i%12 == 5 {
+				hrq.Header = http.Header{"Accept-Encoding": {"gzip, br"}}
+			}
+			hres := w.Cl.Do(hrq)
+			if hres.Err != nil || len(hres.Raw) != 0 || hres.Status != c.Status {
+				r.Violate("head_answer_wrong", nil, fmt.Sprintf("HEAD: err %v, status %d (upstream %d), %d body bytes", hres.Err, hres.Status, c.Status, len(hres.Raw)), hres.Brief(), c)
 			}
 			r.Add("head_before_get", 1)
 		}
